@@ -2,6 +2,7 @@ package lua
 
 import (
 	"fmt"
+	"math"
 	"strings"
 
 	"github.com/yuin/gopher-lua/pm"
@@ -447,10 +448,18 @@ func strRep(L *LState) int {
 	if n < 0 {
 		L.Push(emptyLString)
 	} else {
+		// an allocation failure cannot be caught in Go (the runtime aborts the process), so a result
+		// that cannot reasonably be built is refused here with an ordinary error
+		if n > 0 && len(str) > maxStringRepLen/n {
+			L.RaiseError("resulting string too large")
+		}
 		L.Push(LString(strings.Repeat(str, n)))
 	}
 	return 1
 }
+
+// maxStringRepLen bounds the length of the result of string.rep.
+const maxStringRepLen = math.MaxInt32
 
 func strReverse(L *LState) int {
 	str := L.CheckString(1)
